@@ -256,7 +256,7 @@ func crCases(c *core.Ctx) ([]json.RawMessage, error) {
 	}
 	// ---- G. reference cycles in every position, root registered under its own name
 	{
-		body := "SPECIFICATION Spec\nCONSTANTS\n  N = 3\n  MaxRoot = 1\n  MaxOther = 1\n  Ring = FALSE\n  ModesUsed = {\"plain\", \"optional\", \"nullable\", \"array\"}\n  FatTypes = 0\nINVARIANTS Theorem Emit\nCHECK_DEADLOCK FALSE\n"
+		body := "SPECIFICATION Spec\nCONSTANTS\n  N = 3\n  MaxRoot = 1\n  MaxOther = 1\n  Ring = FALSE\n  ModesUsed = {\"plain\", \"optional\", \"nullable\", \"array\"}\n  FatTypes = 0\n  RootForms = {\"object\"}\nINVARIANTS Theorem Emit\nCHECK_DEADLOCK FALSE\n"
 		n := 0
 		res, err := tlc.Run(tlc.Opts{Module: "TypeGraph", Cfg: "TypeGraph_3_1_1.cfg", Workers: 8, Files: map[string][]byte{"TypeGraph_3_1_1.cfg": []byte(body)}, OnLine: func(l string) {
 			var cs tgCase
@@ -269,11 +269,11 @@ func crCases(c *core.Ctx) ([]json.RawMessage, error) {
 				var i int
 				fmt.Sscan(k, &i)
 				if i != 0 {
-					types[tgName(i)] = tgText(p)
+					types[tgName(i)] = tgText(p, "object")
 				}
 			}
 			// here the root file is called "root": register it under that name and under @main
-			crAdd(&out, seen, crCase{Entry: "project", Text: []byte(strings.ReplaceAll(tgText(cs.Types["0"]), "@main", "@t1")), Types: types, Self: false, Src: "TypeGraph/cycles"})
+			crAdd(&out, seen, crCase{Entry: "project", Text: []byte(strings.ReplaceAll(tgText(cs.Types["0"], "object"), "@main", "@t1")), Types: types, Self: false, Src: "TypeGraph/cycles"})
 		}})
 		res.Cleanup()
 		if err != nil {
